@@ -198,7 +198,7 @@ class Inst:
 
     def __init__(self, name, harness, defs=None, units=(), overrides=(), unwind=8, unwindset=(), safety=False,
                  backends=('sat',), timeout=60, mem_gb=8, extra=(), bound=None, witness=True, replay=True,
-                 family=None, expect_fail=None, nd_hint=None, files=None, native_units=()):
+                 family=None, expect_fail=None, nd_hint=None, files=None, native_units=(), optional=False):
         self.name = name
         self.harness = harness
         self.defs = dict(defs or {})
@@ -217,7 +217,8 @@ class Inst:
         self.family = family or harness
         self.expect_fail = expect_fail  # regex on assertion text: a *known finding probe* that must fail
         self.nd_hint = nd_hint
-        self.native_units = list(native_units)   # extra units only the native replay needs to link
+        self.native_units = list(native_units)
+        self.optional = optional   # a deeper variant of another instance: no verdict within the cap is recorded, not an error   # extra units only the native replay needs to link
         self.files = dict(files or {})   # generated include files (name -> text), written next to the instance
 
 
@@ -226,6 +227,7 @@ BACKEND_FLAGS = {
     'cadical': ['--sat-solver', 'cadical'],
     'kissat': ['--external-sat-solver', 'kissat'],
     'z3': ['--z3'],
+    'z3s': ['--z3', '--slice-formula'],   # slicing also avoids an smt2_conv invariant failure on eval.c's constant union
     'cvc5': ['--cvc5'],
 }
 SAFETY_FLAGS = ['--bounds-check', '--pointer-check', '--div-by-zero-check', '--signed-overflow-check',
@@ -361,10 +363,10 @@ class Runner:
     def _counterexample(self, inst, main):
         d, gbs = main['dir'], main['gbs']
         # traces always from a SAT back end (z3 trace building crashes on bit-field structs)
-        be = main['backend'] if main['backend'] not in ('z3', 'cvc5') else 'sat'
+        be = main['backend'] if main['backend'] not in ('z3', 'z3s', 'cvc5') else 'sat'
         cmd = self._cbmc_cmd(inst, gbs, be, trace=True) + ['--stop-on-fail'] if False else self._cbmc_cmd(inst, gbs, be, trace=True)
         r, dt, rss = self._exec(cmd, max(inst.timeout * 3, 120), max(inst.mem_gb, 12), d)
-        if r.returncode != 10 and main['backend'] in ('z3', 'cvc5'):
+        if r.returncode != 10 and main['backend'] in ('z3', 'z3s', 'cvc5'):
             cmd = self._cbmc_cmd(inst, gbs, main['backend'], trace=True)
             r, dt, rss = self._exec(cmd, max(inst.timeout * 3, 120), max(inst.mem_gb, 12), d)
         out = r.stdout
@@ -519,6 +521,8 @@ def run_check(prop, tier, seed, meta, instances, build, level='model_checking', 
             else:
                 broken.append((r, 'counterexample did not replay natively (%s): %s' % (verdict, detail[-300:])))
                 r['status'] = 'ENCODING-MISMATCH'
+        elif st == 'INCONCLUSIVE' and inst.optional:
+            r['status'] = 'NO-VERDICT(optional)'
         elif st in ('VACUOUS', 'ERROR', 'INCONCLUSIVE'):
             broken.append((r, '%s: %s' % (st, (r.get('detail') or '')[-800:])))
     wall = time.time() - t0
@@ -545,7 +549,7 @@ def run_check(prop, tier, seed, meta, instances, build, level='model_checking', 
         'witness_twins_reachable': nwit,
         'solver_seconds': round(rn.solver_s, 1),
         'peak_rss_mb': rn.peak_rss_kb // 1024,
-        'inconclusive': [r['name'] for r in results if r['status'] == 'INCONCLUSIVE'],
+        'inconclusive': [r['name'] for r in results if r['status'] in ('INCONCLUSIVE', 'NO-VERDICT(optional)')],
         'known_findings_hit': [k['what'] for _, k in knownhits],
         'finding_probes': {r['name']: r.get('probe') for r in results if 'probe' in r},
         'source_hash': build.hash,
